@@ -89,6 +89,24 @@ def _real_chunk(lines):
     return out
 
 
+def _real_chunk_slow(lines):
+    """the same, with eight times the per-operation time limit (used to re-run operations that timed out once, so that a
+    loaded machine cannot turn into a verdict)"""
+    old = os.environ.get("VERIF_OP_TIMEOUT_S")
+    os.environ["VERIF_OP_TIMEOUT_S"] = str(8 * int(old or "8"))
+    try:
+        return _real_chunk(lines)
+    finally:
+        if old is None:
+            os.environ.pop("VERIF_OP_TIMEOUT_S", None)
+        else:
+            os.environ["VERIF_OP_TIMEOUT_S"] = old
+
+
+def run_real_slow(lines):
+    return list(pool().map(_real_chunk_slow, [[l] for l in lines]))
+
+
 def _chunks(lines, n):
     k = max(1, (len(lines) + n - 1) // n)
     return [lines[i:i + k] for i in range(0, len(lines), k)]
